@@ -832,6 +832,9 @@ func (ex *Exec) evalValue(fr *Frame, ins ssa.Value) Value {
 		if p.IsNil() {
 			ex.goPanicf("nil pointer dereference (field %d of %s)", ins.Field, ins.X.Type())
 		}
+		if p.Code != nil {
+			panic(unsupported("field access through a pointer that was read from shared memory (thread mode)"))
+		}
 		return &Pointer{Obj: p.Obj, Path: appendPath(p.Path, PathEl{Idx: ins.Field})}
 	case *ssa.Field:
 		return copyValue(ex.get(fr, ins.X).(StructV)[ins.Field])
@@ -844,6 +847,15 @@ func (ex *Exec) evalValue(fr *Frame, ins ssa.Value) Value {
 	case *ssa.TypeAssert:
 		return ex.typeAssert(fr, ins)
 	case *ssa.Select:
+		// thread mode: a non-blocking select with one send case (send-or-skip)
+		if ex.inThread() && !ins.Blocking && len(ins.States) == 1 && ins.States[0].Dir == types.SendOnly {
+			st := ins.States[0]
+			var vals []*Term
+			ex.flatten(ex.get(fr, st.Send), &vals)
+			idx := ex.tmVar("sel", 64)
+			ex.tmEvent(&Event{Kind: "trysend", Ch: ex.chanCode(ex.get(fr, st.Chan).(*ChanV)), Vals: vals, Var: idx, Pos: ex.curPos})
+			return TupleV{idx, ex.tb.False}
+		}
 		panic(unsupported("select"))
 	}
 	panic(unsupported(fmt.Sprintf("value instruction %T", ins)))
@@ -1836,6 +1848,9 @@ func (ex *Exec) chanRecv(c *ChanV, t types.Type) (Value, *Term) {
 	if ex.inThread() {
 		var vars []*Term
 		v := ex.freshOfType(t, &vars)
+		// a receiver first commits to waiting (its own step), then completes with a sender: between the
+		// two a non-blocking sender finds nobody waiting
+		ex.tmEvent(&Event{Kind: "park", Ch: ex.chanCode(c), Pos: ex.curPos})
 		ex.tmEvent(&Event{Kind: "recv", Ch: ex.chanCode(c), Vars: vars, Pos: ex.curPos})
 		return v, ex.tb.True
 	}
